@@ -213,3 +213,120 @@ class TowerViewSuite:
         if any(d.get("tower_id") != TOWER_ID for _, d in emits[:2]):
             return "a start-up message lacks the tower id"
         return None
+
+
+# ============================================================================= C20: the tower page
+class PageSuite:
+    """get_load_balancing_url on generated tower-page bodies: the page as Ringing Room renders it (one
+    parameter per line), the same page minified onto one line, trailing comments with quoted words, the
+    parameter at the very end of the body, no closing quote, no server_ip at all, the word elsewhere in
+    the page; --url values with and without a scheme.  requests.get is replaced by a fake."""
+    name = "tower_page"
+    case_type = "page_case"
+    chk = "chk_page"
+    imports = gens.IMPORTS + "\nFrom Wh Require Import PageParser CorrPage."
+    shard = 150
+
+    URLS = ["https://sock-eu-2.ringingroom.example:8443", "http://127.0.0.1:8080", "", "/", "ws.example", "https://rr.example/a?b=c",
+            "https://рр.example"]
+    UNFIXED = ["https://ringingroom.com", "ringingroom.com", "http://localhost:5000/", "httpx.example", "ringingroom.co.uk/", "HTTP://X"]
+
+    def cases(self, rng, tier):
+        n = 150 if tier == "quick" else 1500
+        for _ in range(n):
+            url = rng.choice(self.URLS)
+            head = rng.choice(["<html><head><script>\nwindow.tower_parameters = {\n    id: 763451928,\n    name: \"Test\",\n",
+                               "<html>", "", "<!-- no params -->\n  <script>var p = {id: 1,\n"])
+            kind = rng.choice(["rendered", "rendered", "minified", "comment", "eof", "no_close", "absent", "absent_word_elsewhere",
+                               "word_earlier"])
+            line = f'    server_ip: "{url}"'
+            if kind == "rendered":
+                body = head + line + ',\n    host_permissions: false,\n    listen_link: "/763451928/listen"\n};</script></html>'
+            elif kind == "minified":
+                body = head.replace("\n", " ") + line + ', host_permissions: false, listen_link: "/763451928/listen"};</script><p class="motto">"Look to!"</p>'
+            elif kind == "comment":
+                body = head + line + ', // the "load balanced" socket server\n    x: "y"\n};'
+            elif kind == "eof":
+                body = head + line
+            elif kind == "no_close":
+                body = head.replace('"', "'") + f'    server_ip: "{url}'
+                url = None
+            elif kind == "absent":
+                body = head + '    host_permissions: false\n};</script></html>'
+                url = None
+            elif kind == "absent_word_elsewhere":
+                body = head + '    server: "ip",\n    listen_link: "/x"\n};'
+                url = None
+            else:   # the word occurs earlier than the parameter: the code takes the FIRST occurrence, as the page's author must expect
+                body = "<!-- server_ip is set below -->\n" + head + line + ",\n};"
+                url = "WHATEVER"
+            yield {"body": body, "unfixed": rng.choice(self.UNFIXED), "tower_id": rng.choice([763451928, 1, 0]), "expected": url,
+                   "conn_error": rng.random() < 0.05}
+
+    def run_impl(self, case):
+        import wheatley.page_parser as P
+        import requests
+        seen = {}
+
+        class Resp:
+            text = case["body"]
+
+        def fake_get(url, *a, **kw):
+            seen["url"] = url
+            seen["timeout"] = kw.get("timeout")
+            if case["conn_error"]:
+                raise requests.exceptions.ConnectionError("no route")
+            return Resp()
+        saved = P.requests.get
+        P.requests.get = fake_get
+        try:
+            try:
+                r = {"ok": P.get_load_balancing_url(case["tower_id"], case["unfixed"])}
+            except P.TowerNotFoundError as e:
+                r = {"err": "TowerNotFoundError", "text": str(e)}
+            except P.InvalidURLError as e:
+                r = {"err": "InvalidURLError", "text": str(e)}
+            except Exception as e:  # pylint: disable=broad-except
+                r = {"err": type(e).__name__, "text": str(e)}
+        finally:
+            P.requests.get = saved
+        fix = getattr(P, "_fix_url", None)
+        r["fixed"] = fix(case["unfixed"]) if fix else None
+        r["requested"] = seen.get("url")
+        return r
+
+    def to_coq(self, case, out):
+        if case["conn_error"]:
+            # the page is never read: compare only the URL fixing (the body handed to the model is one it rejects the same way)
+            obs = F.err("EOwn") if out.get("err") == "InvalidURLError" else F.err("EOther")
+            html = F.ustr("")
+        else:
+            obs = F.ok(F.ustr(out["ok"])) if "ok" in out else F.err("EOwn" if out["err"] == "TowerNotFoundError" else "EOther")
+            html = F.ustr(case["body"])
+        fixed = out["fixed"] if out["fixed"] is not None else ("" )
+        return f"(mkPage {html} {F.ustr(case['unfixed'])} {obs} {F.ustr(fixed)})"
+
+    def key(self, case):
+        return json.dumps(case, sort_keys=True)
+
+    def nontrivial(self, case, out):
+        return True
+
+    def oracle_C20(self, case, out):
+        unfixed = case["unfixed"]
+        # (where the page is fetched from is not part of C20: `_fix_url` is compared with the model only.  Observation:
+        # a host name that itself starts with "http", e.g. httpx.example, is taken to have a scheme already.)
+        if case["conn_error"]:
+            if out.get("err") != "InvalidURLError":
+                return f"no connection to {unfixed!r}: expected the option's own InvalidURLError, got {out}"
+            return None
+        exp = case["expected"]
+        if exp == "WHATEVER":
+            return None
+        if exp is None:
+            if out.get("err") != "TowerNotFoundError":
+                return f"a page that names no socket server must give TowerNotFoundError, got {out}"
+            return None
+        if out.get("ok") != exp:
+            return f"the page names socket server {exp!r} but Wheatley would connect to {out.get('ok', out)!r}"
+        return None
